@@ -21,7 +21,26 @@ def main():
     try:
         if a.replay:
             return mod.replay(chk, a.replay)
+        if os.environ.get('VERIF_NO_MSAN') != '1':
+            try:
+                vlib.SHADOW['exe'] = vlib.build_msan()
+            except vlib.BuildError as e:
+                # gcc decides whether the tree builds; without the clang build the uninitialised-read shadow is simply absent
+                chk.trusted.append('the MemorySanitizer shadow was NOT run: ' + str(e)[:200])
         mod.run(chk)
+        if vlib.SHADOW['exe']:
+            chk.count('msan_shadow_scripts', vlib.SHADOW['runs'])
+            chk.count('msan_shadow_calls', vlib.SHADOW['calls'])
+            chk.trusted.append('every harness script of this check was also run under a clang MemorySanitizer build of library and harness (calls reaching the uninstrumented libyaml removed)')
+            if vlib.SHADOW['reports'] and not chk.violations:
+                reached, err = vlib.SHADOW['reports'][0]
+                exe_m = vlib.SHADOW['exe']
+                vlib.SHADOW['exe'] = None
+                bad = lambda ls: 'use-of-uninitialized-value' in vlib.run_lines(exe_m, ls, timeout=600, env=vlib.MSAN_ENV)[2]
+                small = vlib.shrink(reached, bad) if bad(reached) else reached
+                err2 = vlib.run_lines(exe_m, small, timeout=600, env=vlib.MSAN_ENV)[2]
+                chk.violation('uninitialised', 'the library read memory it never wrote, and the value decided a branch, an address or output (MemorySanitizer; %d calls reduced to %d):\n%s'
+                              % (len(reached), len(small), (err2 if 'use-of-uninitialized-value' in err2 else err)[-2200:]), small)
     except vlib.BuildError as e:
         # the tree does not build: nothing can be decided; report as violation without input
         chk.violation('build', 'build failed: %s' % e, nofail=True)
